@@ -20,7 +20,7 @@ RULE = ("energies drawn log-uniformly from [1 eV, 10 MeV] plus boundary values; 
 CLAUSES = ["wavelength-formula", "wavelength-decreasing", "sigma-formula", "sigma-positive",
            "angular-sampling", "nonpositive-rejected", "object-wavelength", "object-angular-sampling"]
 QUICK = dict(n=1500, time=40)
-THOROUGH = dict(n=60000, time=240, shards=8)
+THOROUGH = dict(n=480000, time=480, shards=16)
 
 # CODATA 2014 (ase.units default)
 H = 6.626070040e-34
